@@ -2,6 +2,7 @@ package rules
 
 import (
 	"fmt"
+	"go/token"
 	"go/types"
 	"sort"
 	"strings"
@@ -439,7 +440,7 @@ func c09(c *core.Ctx, r *core.Report) {
 				} else {
 					r.Fail("C09.E1", cons, pos, "error of a definition scanner is collected, but the scan table does not show that it reaches the result")
 				}
-			case u.Class == core.ErrSwallow && fn.Parent() != nil:
+			case u.Class == core.ErrSwallow && fn.Parent() != nil && !furtherDecides(call):
 				if ok, why := accumulateThenTest(c, call); ok {
 					byClass["accumulate-then-test"]++
 					okSites++
@@ -447,6 +448,10 @@ func c09(c *core.Ctx, r *core.Report) {
 				} else {
 					r.Fail("C09.E1", cons, pos, "error is swallowed inside a function literal: "+why)
 				}
+			case (u.Class == core.ErrOther || u.Class == core.ErrDropped || u.Class == core.ErrSwallow) && flaggedError(c, call):
+				byClass["flag-guarded"]++
+				okSites++
+				r.Hold("C09.E1", cons, pos, "exception: the callee answers (finished, err) and reports an error only together with finished==true (every return of every implementation); the caller returns err on the finished edge")
 			case u.Class == core.ErrSwallow && optionalSkip(c, call, u):
 				byClass["optional-skip"]++
 				okSites++
@@ -614,12 +619,63 @@ func requiredDecisionRules(c *core.Ctx, r *core.Report, rule string, fns []*ssa.
 	isReq := c.DeclaredMethod(prop, "IsRequired")
 	unm := c.DeclaredMethod(prop, "Unmarshall")
 	n := 0
+	// the decision values: the results of IsRequired(), and the loads of a field of a run-context object that holds
+	// nothing but such a result (read once, decided on later)
+	type decision struct {
+		fn  *ssa.Function
+		v   ssa.Value
+		pos token.Pos
+	}
+	var decisions []decision
+	inFns := map[*ssa.Function]bool{}
+	for _, fn := range fns {
+		inFns[fn] = true
+	}
 	for _, fn := range fns {
 		for _, ci := range core.Calls(fn) {
 			call, ok := ci.(*ssa.Call)
 			if !ok || !core.IsCallTo(call.Common(), isReq) {
 				continue
 			}
+			carried := false
+			for _, rf := range *call.Referrers() {
+				st, isSt := rf.(*ssa.Store)
+				if !isSt || st.Val != ssa.Value(call) {
+					continue
+				}
+				fa, isFA := st.Addr.(*ssa.FieldAddr)
+				if !isFA {
+					continue
+				}
+				fr, okF := core.FieldOfAddr(fa)
+				if !okF || !transientType(c, fr.Owner, 0) {
+					continue
+				}
+				stores, others := c.FieldAccesses(fr.Owner, fr.Name)
+				only := true
+				for _, s2 := range stores {
+					if c2, isCall := s2.Store.Val.(*ssa.Call); !isCall || !core.IsCallTo(c2.Common(), isReq) {
+						only = false
+					}
+				}
+				if !only {
+					continue
+				}
+				carried = true
+				for _, o := range others {
+					if ld, isLoad := o.Instr.(*ssa.UnOp); isLoad && ld.Op == token.MUL && ld.X == ssa.Value(o.Addr) && inFns[core.TopLevel(o.Fn)] {
+						decisions = append(decisions, decision{o.Fn, ld, ld.Pos()})
+					}
+				}
+			}
+			if !carried {
+				decisions = append(decisions, decision{fn, call, call.Pos()})
+			}
+		}
+	}
+	for _, d := range decisions {
+		fn, call := d.fn, d.v
+		{
 			// every If on the result
 			for _, rf := range *call.Referrers() {
 				iff, ok := rf.(*ssa.If)
@@ -627,7 +683,7 @@ func requiredDecisionRules(c *core.Ctx, r *core.Report, rule string, fns []*ssa.
 					if _, isDbg := rf.(*ssa.DebugRef); isDbg {
 						continue
 					}
-					r.Undecided(rule, "IsRequired-use@"+core.FnName(fn), c.Pos(call.Pos()), "IsRequired() result is used other than as a branch condition")
+					r.Undecided(rule, "IsRequired-use@"+core.FnName(fn), c.Pos(d.pos), "IsRequired() result is used other than as a branch condition")
 					continue
 				}
 				n++
@@ -703,4 +759,68 @@ func branchOrdinal(fn *ssa.Function, iff *ssa.If) int {
 		}
 	}
 	return n
+}
+
+// flaggedError: the call answers (flag bool, err error); every in-scope implementation returns a non-nil error only
+// together with the constant true flag; and the caller returns the error as it is on the flag's true edge.  On the
+// other edge there is no error to lose.
+func flaggedError(c *core.Ctx, call *ssa.Call) bool {
+	sig := call.Common().Signature()
+	if sig.Results().Len() != 2 || !isErrorType(sig.Results().At(1).Type()) {
+		return false
+	}
+	if b, ok := sig.Results().At(0).Type().Underlying().(*types.Basic); !ok || b.Kind() != types.Bool {
+		return false
+	}
+	var impls []*ssa.Function
+	if cal := call.Common().StaticCallee(); cal != nil {
+		impls = []*ssa.Function{cal}
+	} else if g := core.Seam(call.Common()); g != nil {
+		impls = []*ssa.Function{g}
+	} else {
+		impls = core.SeamAll(call.Common())
+	}
+	if len(impls) == 0 {
+		return false
+	}
+	for _, f := range impls {
+		if f.Blocks == nil || !c.InScope(f) {
+			return false
+		}
+		for _, ret := range core.Returns(f) {
+			if len(ret.Results) != 2 {
+				return false
+			}
+			k, isK := ret.Results[0].(*ssa.Const)
+			isTrue := isK && k.Value != nil && k.Value.String() == "true"
+			if !isTrue && !core.IsNilConst(ret.Results[1]) {
+				return false
+			}
+		}
+	}
+	// the caller: if flag { return ..., err }
+	var flag, errv ssa.Value
+	for _, rf := range *call.Referrers() {
+		if ex, ok := rf.(*ssa.Extract); ok {
+			if ex.Index == 0 {
+				flag = ex
+			} else {
+				errv = ex
+			}
+		}
+	}
+	if flag == nil || errv == nil {
+		return false
+	}
+	for _, rf := range *flag.Referrers() {
+		iff, ok := rf.(*ssa.If)
+		if !ok {
+			continue
+		}
+		tb := iff.Block().Succs[0]
+		if ret, isRet := tb.Instrs[len(tb.Instrs)-1].(*ssa.Return); isRet && len(ret.Results) > 0 && ret.Results[len(ret.Results)-1] == errv {
+			return true
+		}
+	}
+	return false
 }
